@@ -269,10 +269,23 @@ pub(super) fn read_artifact_range(
         .read(&mut buf)
         .map_err(|err| format!("read artifact failed: {err}"))?;
     buf.truncate(read_bytes);
+    if (offset_bytes + read_bytes as u64) < total_bytes {
+        // More output follows: a character straddling the page boundary belongs to the next page.
+        buf.truncate(utf8_page_len(&buf));
+    }
 
     let (content, utf8_truncated, used_bytes) = truncate_utf8(&buf, max_bytes);
-    let truncated = utf8_truncated || (offset_bytes + read_bytes as u64) < total_bytes;
+    let truncated = utf8_truncated || (offset_bytes + used_bytes as u64) < total_bytes;
     Ok((content, used_bytes, total_bytes, truncated))
+}
+
+/// Bytes of `page` to decode when more output follows it: an incomplete trailing UTF-8 sequence is
+/// held back (never the whole page, so paging always advances).
+pub(super) fn utf8_page_len(page: &[u8]) -> usize {
+    match std::str::from_utf8(page) {
+        Err(err) if err.error_len().is_none() && err.valid_up_to() > 0 => err.valid_up_to(),
+        _ => page.len(),
+    }
 }
 
 pub(super) fn is_lower_hex_64(value: &str) -> bool {
